@@ -105,6 +105,39 @@ func c14Exec(c *engine.Ctx, cs c14Case) {
 		if !checkXY("flat", g1, wx, wy, tol) || !checkXY("multipoint", g2, wx, wy, tol) || !checkXY("points", g3, wx, wy, tol) {
 			return
 		}
+		// the same points as a MultiPoint that also has members WITHOUT a position (first, in the
+		// middle, last): the mean is taken over the points there are
+		if len(pts) <= 70 {
+			st := l.Stride()
+			for _, at := range []int{0, len(pts) / 2, len(pts)} {
+				coords := make([]geom.Coord, 0, len(pts)+2)
+				for i := 0; i <= len(pts); i++ {
+					if i == at {
+						coords = append(coords, nil)
+						if at == len(pts)/2 {
+							coords = append(coords, nil)
+						}
+					}
+					if i < len(pts) {
+						coords = append(coords, geom.Coord(flat[i*st:(i+1)*st]))
+					}
+				}
+				var g4, g5 geom.Coord
+				var err5 error
+				if pn, _ := engine.Guard(func() {
+					mp := geom.NewMultiPoint(l).MustSetCoords(coords).SetSRID(srid)
+					g4 = xy.MultiPointCentroid(mp)
+					g5, err5 = xy.Centroid(mp)
+				}); pn != nil || err5 != nil {
+					fail("multipoint-with-empty-members/panic", fmt.Sprintf("panic %v error %v with an empty member at %d", pn, err5, at))
+					return
+				}
+				if !checkXY("multipoint-with-empty-members", g4, wx, wy, tol) || !checkXY("centroid-of-multipoint-with-empty-members", g5, wx, wy, tol) {
+					return
+				}
+				c.Count("multipoints_with_empty_members", 1)
+			}
+		}
 		c.Count("point_centroids", 1)
 		c.DistinctStr(fmt.Sprint("p", cs.Rings, l))
 	case "lines":
